@@ -1,5 +1,4 @@
 import G3D.Proofs.BodySound
-import G3D.Props.C04
 
 /-! # Soundness of `intersection`, all 49 cells in one statement (C12, third clause), and the structural
     part of `Polyhedron.Good` for constructed polyhedra. -/
@@ -210,17 +209,5 @@ theorem interRef_sound (a b : Obj) (ha : OpWF a) (hb : OpWF b) :
     | polygon Q => exact interPolygonPolyhedron_sound A ha Q hb
     | polyhedron B => exact interPolyhedronPolyhedron_sound A B ha hb
 #print axioms interRef_sound
-
-/-- the same about `inter`, the dispatcher generated from the current source -/
-theorem inter_sound (a b : Obj) (ha : OpWF a) (hb : OpWF b) :
-    Sound (inter a b) (OpDen a) (OpDen b) := by
-  rw [Props.C04.inter_eq_ref]; exact interRef_sound a b ha hb
-
-/-- C12, third clause, in words: every vertex / end point of `intersection(a, b)` lies in `a` and in `b`
-    (and a returned Segment has two distinct end points) -/
-theorem inter_result_vertices_in_both (a b : Obj) (ha : OpWF a) (hb : OpWF b)
-    (r : Obj) (h : inter a b = .ok (some r)) : ∀ v ∈ resVerts (some r), OpDen a v ∧ OpDen b v :=
-  (inter_sound a b ha hb).verts r h
-#print axioms inter_result_vertices_in_both
 
 end G3D
